@@ -21,6 +21,7 @@ RULE = ("Hypothesis draws (model in ZNCC/NCC/PCC/FSC; template class A = analyti
         "Oracle: |shift - d| <= 0.1 px (ZNCC/NCC/PCC unmasked) or 0.5 px (FSC, or any mask), identity quaternion, "
         "shifting the sub-volume by -shift superimposes it on the template (corr >= 0.98), score >= 0.9 for "
         "ZNCC/NCC unmasked. Non-trivial = fractional or boundary displacement with |d| >= 0.3 px.")
+RULE += (" " + "Also: engine 'wide-range' (search ranges from half the box to beyond it), intensity gains 1e-4..100 on both images, grey offsets up to 300 for the real-space models, and with a tilt model the same model object is asked again after an alignment at another orientation (identical answer required).")
 TOLERANCES = {"ZNCC/NCC/PCC unmasked": "0.1 px (stated by the property)", "FSC or masked": "0.5 px (stated)",
               "superposition": "corrcoef >= 0.98", "score": ">= 0.9 (ZNCC/NCC, unmasked)"}
 ASSUMPTIONS = ["templates are non-degenerate: >= 3 blobs with distinct amplitudes / windowed broadband noise; for FSC only broadband templates (power in every shell)",
